@@ -1001,9 +1001,27 @@ func ruleAlwaysCancels(r *Run, id string) {
 		if rn == nil {
 			continue
 		}
-		isCancelCall := func(ins ssa.Instruction) bool {
+		var isCancelCall func(ins ssa.Instruction) bool
+		isCancelCall = func(ins ssa.Instruction) bool {
 			cc := instrCall(ins)
-			if cc == nil || cc.StaticCallee() != nil || cc.IsInvoke() {
+			if cc == nil {
+				return false
+			}
+			// defer func() { …; x.cancel(); … }(): the cancel runs at every return after the defer was registered
+			if d, isDefer := ins.(*ssa.Defer); isDefer {
+				if cl := closureOf(d.Call.Value); cl != nil {
+					inner := false
+					allInstrs(cl, func(x ssa.Instruction) {
+						if _, nested := x.(*ssa.Defer); !nested && isCancelCall(x) {
+							inner = true
+						}
+					})
+					if inner {
+						return true
+					}
+				}
+			}
+			if cc.StaticCallee() != nil || cc.IsInvoke() {
 				return false
 			}
 			if !typeIs(cc.Value.Type(), "context", "CancelFunc") {
@@ -2145,4 +2163,340 @@ func ruleOptionSetters(r *Run, id string, fileSuffix string) {
 		}
 		r.Check(name+" sets its field", okAll, p.pos(fn.Pos()), name, fmt.Sprintf("fields stored by the option: %v; not named in the option's name: %v", fields, odd))
 	}
+}
+
+// ruleGoroutinesOutliveRequestCtx: a goroutine that serves a stream or connection for its whole life must not stop when
+// the context of the API call that happened to start it ends (callers cancel that context as soon as the call
+// returns). In the given packages a select of a go-started closure may watch a Done() that derives from a context
+// PARAMETER of the enclosing declared function only if that function itself blocks until the goroutine is finished
+// (it waits on a sync.WaitGroup / errgroup, or the closure is a worker of such a group).
+func ruleGoroutinesOutliveRequestCtx(r *Run, id string, pkgs ...string) {
+	r.Begin(id, "service goroutines are not bounded by a request context: in "+strings.Join(pkgs, ", ")+", a closure started with go does not select on the Done() of a context that derives from a context parameter of the enclosing function, unless that function waits for the goroutine before it returns", 1)
+	p := r.P
+	n := 0
+	for _, fn := range p.Funcs {
+		okPkg := false
+		for _, pk := range pkgs {
+			if fnPkgPath(fn) == modPath+pk {
+				okPkg = true
+			}
+		}
+		if !okPkg || fn.Parent() == nil || !isGoBody(fn) {
+			continue
+		}
+		top := topFunc(fn)
+		var ctxParams []*ssa.Parameter
+		for f := fn.Parent(); f != nil; f = f.Parent() {
+			for _, prm := range f.Params {
+				if isContextType(prm.Type()) {
+					ctxParams = append(ctxParams, prm)
+				}
+			}
+		}
+		if len(ctxParams) == 0 {
+			continue
+		}
+		// does the creator wait? (WaitGroup.Wait / errgroup.Wait in the enclosing functions)
+		waits := false
+		for f := fn.Parent(); f != nil; f = f.Parent() {
+			allInstrs(f, func(ins ssa.Instruction) {
+				if isCallNamed(ins, "sync.WaitGroup.Wait", "golang.org/x/sync/errgroup.Group.Wait") {
+					waits = true
+				}
+			})
+		}
+		k := 0
+		allInstrs(fn, func(ins ssa.Instruction) {
+			sel, ok := ins.(*ssa.Select)
+			if !ok {
+				return
+			}
+			for _, st := range sel.States {
+				if st.Dir != types.RecvOnly {
+					continue
+				}
+				cx := doneCtx(st.Chan)
+				if cx == nil {
+					continue
+				}
+				fromParam := false
+				for _, rt := range ctxRoots(cx) {
+					if prm := paramOf(rt); prm != nil {
+						for _, q := range ctxParams {
+							if q == prm {
+								fromParam = true
+							}
+						}
+					}
+				}
+				if !fromParam {
+					continue
+				}
+				// only contexts that really come from an API call: the creator is exported, or one of its call sites
+				// passes the context parameter of an exported function down to it
+				isReq := false
+				for _, q := range ctxParams {
+					if isRequestCtxParam(p, q, 3) {
+						isReq = true
+					}
+				}
+				if !isReq {
+					continue
+				}
+				n++
+				k++
+				name := fnName(fn)
+				r.Check(fmt.Sprintf("%s request-ctx watch#%d", name, k), waits, posOf(p, sel), name, "this goroutine stops when the context parameter of "+fnName(top)+" ends, but "+fnName(top)+" does not wait for it: once the caller cancels the context of the call that started it, the goroutine's service (forwarding, dispatching) silently ends while the stream lives on")
+			}
+		})
+	}
+	if n == 0 {
+		r.Check("request-context watches", true, "", "", "no go-started closure watches a context parameter of its creator")
+	}
+}
+
+// isRequestCtxParam: prm is the context parameter of an exported function or method, or some static call site hands
+// such a parameter (or a context derived from it) down to prm.
+func isRequestCtxParam(p *Prog, prm *ssa.Parameter, depth int) bool {
+	fn := prm.Parent()
+	if fn == nil || depth < 0 {
+		return false
+	}
+	if o := fn.Object(); o != nil && o.Exported() && fn.Parent() == nil {
+		return true
+	}
+	idx := -1
+	for i, q := range fn.Params {
+		if q == prm {
+			idx = i
+		}
+	}
+	if idx < 0 {
+		return false
+	}
+	for _, site := range p.staticCallSites(fn) {
+		cc := instrCall(site)
+		if cc == nil || idx >= len(cc.Args) {
+			continue
+		}
+		for _, rt := range ctxRoots(cc.Args[idx]) {
+			if q := paramOf(rt); q != nil && q != prm && isRequestCtxParam(p, q, depth-1) {
+				return true
+			}
+		}
+	}
+	// a closure handed to a helper that calls it (c.send(ctx, func(ctx context.Context) error {…})): its parameter is
+	// whatever the helper passes at the invocation
+	if fn.Parent() != nil {
+		if _, uses, ok := funcValueUses(fn); ok {
+			for _, u := range uses {
+				cc := instrCall(u)
+				if cc == nil {
+					continue
+				}
+				for _, ic := range invokedClosureArgs(p, cc) {
+					if ic.closure != fn {
+						continue
+					}
+					for _, s := range ic.sites {
+						sc := instrCall(s)
+						if sc == nil || idx >= len(sc.Args) {
+							continue
+						}
+						for _, rt := range ctxRoots(sc.Args[idx]) {
+							if q := paramOf(rt); q != nil && q != prm && isRequestCtxParam(p, q, depth-1) {
+								return true
+							}
+						}
+					}
+				}
+			}
+		}
+	}
+	return false
+}
+
+// ruleCheckThenActAtomic: a table that is inspected and then extended within one function is inspected and extended
+// in one critical section. For every write of a map field the rule walks backwards to the lock releases of the
+// function; a lookup, range or len of the same field that can reach the write but lies before such a release is a stale
+// check unless the field is inspected again inside the section the write sits in (the re-check of a double-checked
+// insert).
+// checkThenActExceptions: one named function each, with the reason the split check is harmless there.
+var checkThenActExceptions = map[string]string{
+	"(*iscp.Conn).call":           "the call id is minted by the library (a fresh UUID per call): the duplicate test is a defensive belief, two callers never hold the same id",
+	"(*iscp.Conn).subscribeReply": "the request id is the library-minted call id of this very call: the duplicate test is a defensive belief, two callers never hold the same id",
+}
+
+func ruleCheckThenActAtomic(r *Run, id string, pkgs ...string) {
+	r.Begin(id, "check-then-act is atomic: where a function inspects a field (map lookup, range, len; comparison of a cell) and later writes it, no lock release lies between the inspection the write relies on and the write (a re-check inside the writing section is accepted)", 1)
+	p := r.P
+	n := 0
+	for _, fn := range p.Funcs {
+		okPkg := false
+		for _, pk := range pkgs {
+			if fnPkgPath(fn) == modPath+pk {
+				okPkg = true
+			}
+		}
+		if !okPkg || fn.Blocks == nil {
+			continue
+		}
+		// releases in this function
+		hasRelease := false
+		allInstrs(fn, func(ins ssa.Instruction) {
+			if c, ok := ins.(*ssa.Call); ok {
+				if op, _ := classifyLockCall(&c.Call); op == opUnlock || op == opRUnlock {
+					hasRelease = true
+				}
+			}
+		})
+		inspecting := func(fk string) []ssa.Instruction {
+			var out []ssa.Instruction
+			allInstrs(fn, func(x ssa.Instruction) {
+				ld, isLd := x.(*ssa.UnOp)
+				if !isLd || ld.Op != token.MUL || fieldKeyOfAddr(ld.X) != fk || ld.Referrers() == nil {
+					return
+				}
+				for _, ref := range *ld.Referrers() {
+					switch u := ref.(type) {
+					case *ssa.Lookup, *ssa.Range:
+						out = append(out, ld)
+						return
+					case *ssa.BinOp:
+						if u.Op == token.EQL || u.Op == token.NEQ {
+							out = append(out, ld)
+							return
+						}
+					case *ssa.Call:
+						if b, isB := u.Call.Value.(*ssa.Builtin); isB && b.Name() == "len" {
+							out = append(out, ld)
+							return
+						}
+					}
+				}
+			})
+			return out
+		}
+		seenKey := map[string]bool{}
+		allInstrs(fn, func(ins ssa.Instruction) {
+			var mu ssa.Instruction
+			fk := ""
+			switch w := ins.(type) {
+			case *ssa.MapUpdate:
+				if ld, isLd := w.Map.(*ssa.UnOp); isLd && ld.Op == token.MUL {
+					fk = fieldKeyOfAddr(ld.X)
+				}
+				mu = w
+			case *ssa.Store:
+				// a scalar cell that is compared and then replaced (the "already done by someone else" test of a redial)
+				fk = fieldKeyOfAddr(w.Addr)
+				mu = w
+			}
+			if fk == "" || mu == nil {
+				return
+			}
+			reads := inspecting(fk)
+			if len(reads) == 0 {
+				return
+			}
+			n++
+			name := fnName(fn)
+			key := name + " " + fk
+			if seenKey[key] {
+				key += fmt.Sprintf("#%d", n)
+			}
+			seenKey[key] = true
+			// a stale check: an inspection happens before some release, and from that release the write is reached
+			// without the field being inspected again
+			isRead := map[ssa.Instruction]bool{}
+			for _, rd := range reads {
+				isRead[rd] = true
+			}
+			var stale ssa.Instruction
+			fresh := true
+			if hasRelease {
+				allInstrs(fn, func(u ssa.Instruction) {
+					c, isC := u.(*ssa.Call)
+					if !isC || stale != nil {
+						return
+					}
+					if op, _ := classifyLockCall(&c.Call); op != opUnlock && op != opRUnlock {
+						return
+					}
+					before := false
+					for _, rd := range reads {
+						if reachesWithout(rd, func(x ssa.Instruction) bool { return x == u }, nil) != nil {
+							before = true
+						}
+					}
+					if !before {
+						return
+					}
+					if reachesWithout(u, func(x ssa.Instruction) bool { return x == mu }, func(x ssa.Instruction) bool { return isRead[x] }) != nil {
+						stale = u
+						fresh = false
+					}
+				})
+			}
+			if why, ok := checkThenActExceptions[name]; ok {
+				r.Check(key+" inspected and written in one section", true, posOf(p, mu), name, "excepted: "+why)
+				return
+			}
+			where := posOf(p, mu)
+			if stale != nil && !fresh {
+				where = posOf(p, stale)
+			}
+			r.Check(key+" inspected and written in one section", stale == nil || fresh, where, name, "the field is inspected, the lock is released, and on some path the field is written without being inspected again: two goroutines can both find the entry missing (or the cell unchanged) and both act")
+		})
+	}
+	if n == 0 {
+		r.Check("check-then-insert sites", true, "", "", "no function inspects and writes a map field")
+	}
+}
+
+// ruleDurationUnits: a time.Duration constant names its unit. A bare small number that ends up as a Duration (a default
+// written as 10 next to DefaultQueueSize = 32) means nanoseconds; every non-zero Duration constant used as a value in
+// the given packages is at least a microsecond. Scaling factors (operands of * / %) are not values.
+func ruleDurationUnits(r *Run, id string, pkgs ...string) {
+	r.Begin(id, "durations carry a unit: every non-zero constant of type time.Duration used as a value (returned, stored, passed, compared) in the named packages is at least one microsecond — a bare number of nanoseconds is a forgotten unit", 1)
+	p := r.P
+	n := 0
+	for _, fn := range p.Funcs {
+		okPkg := false
+		for _, pk := range pkgs {
+			if fnPkgPath(fn) == modPath+pk {
+				okPkg = true
+			}
+		}
+		if !okPkg || fn.Blocks == nil {
+			continue
+		}
+		name := fnName(fn)
+		k := 0
+		allInstrs(fn, func(ins ssa.Instruction) {
+			if b, isB := ins.(*ssa.BinOp); isB && (b.Op == token.MUL || b.Op == token.QUO || b.Op == token.REM) {
+				return
+			}
+			for _, op := range ins.Operands(nil) {
+				if op == nil || *op == nil {
+					continue
+				}
+				c, ok := (*op).(*ssa.Const)
+				if !ok || c.Value == nil || !typeIs(c.Type(), "time", "Duration") {
+					continue
+				}
+				v := c.Int64()
+				if v == 0 {
+					continue
+				}
+				k++
+				n++
+				if v < 0 {
+					v = -v
+				}
+				r.Check(fmt.Sprintf("%s duration constant#%d has a unit", name, k), v >= 1000, posOf(p, ins), name, fmt.Sprintf("a time.Duration constant of %d nanoseconds: a number without a unit (time.Second, time.Millisecond) was used as a duration", c.Int64()))
+			}
+		})
+	}
+	r.Stat("duration_constants", n)
 }
